@@ -559,6 +559,35 @@ func sortSpec(u *Universe, pkg, recv, name string) (key string, val string, pos 
 					arg = init
 				}
 			}
+			// a small function that builds the document from its parameters: read its literal with the arguments in
+			// place of the parameters
+			subst := map[types.Object]ast.Expr{}
+			if hc, isCall := arg.(*ast.CallExpr); isCall {
+				if f := calleeOf(p.TypesInfo, hc); f != nil {
+					if hd, hp := u.Decl(f); hd != nil && hd.Body != nil && len(hd.Body.List) == 1 && hp == p {
+						if ret, isRet := hd.Body.List[0].(*ast.ReturnStmt); isRet && len(ret.Results) == 1 {
+							i := 0
+							for _, fl := range hd.Type.Params.List {
+								for _, nm := range fl.Names {
+									if i < len(hc.Args) {
+										subst[p.TypesInfo.Defs[nm]] = hc.Args[i]
+									}
+									i++
+								}
+							}
+							arg = ret.Results[0]
+						}
+					}
+				}
+			}
+			actual := func(e ast.Expr) ast.Expr {
+				if id, isID := ast.Unparen(e).(*ast.Ident); isID {
+					if a, has := subst[p.TypesInfo.Uses[id]]; has {
+						return a
+					}
+				}
+				return e
+			}
 			ast.Inspect(arg, func(m ast.Node) bool {
 				kv, isKV := m.(*ast.KeyValueExpr)
 				if !isKV {
@@ -567,12 +596,13 @@ func sortSpec(u *Universe, pkg, recv, name string) (key string, val string, pos 
 				if id, isID := kv.Key.(*ast.Ident); isID {
 					switch id.Name {
 					case "Key":
-						key = exprString(kv.Value)
-						if cv := constOf(p.TypesInfo, kv.Value); cv != nil {
+						v := actual(kv.Value)
+						key = exprString(v)
+						if cv := constOf(p.TypesInfo, v); cv != nil {
 							key += "=" + cv.ExactString()
 						}
 					case "Value":
-						if cv := constOf(p.TypesInfo, kv.Value); cv != nil {
+						if cv := constOf(p.TypesInfo, actual(kv.Value)); cv != nil {
 							val = cv.ExactString()
 						}
 					}
